@@ -1,2 +1,2 @@
-// Package c15 holds the workloads and monitors of property C15.
+// Package c15 holds the workloads and monitors of property C15 (see c15.go).
 package c15
